@@ -45,6 +45,8 @@ type progSet struct {
 
 var sharedWire []byte // a read-only input slice shared by concurrent decoders
 var sharedSnap []byte // what it held when the run began
+var nonceArena []byte // 64 regions of 64 octets: the nonces of concurrent derivations lie next to each other
+var nonceSnap []byte
 
 // every number GenerateRandomNumber returned during the run (C09/C18: locally generated numbers differ from call to call)
 var (
@@ -182,9 +184,27 @@ func runOp(kind string, g int, seed int64, i int) (out string) {
 		return digest(J{"same": eqJ(projMsg(back), mj), "len": len(w)})
 	case "ike_derive":
 		o := actIkeDerive(e, J{"suite": J{"encr": []int{128, 192, 256}[g%3], "integ": []string{"md5", "sha1", "sha256"}[(g/3)%3], "prf": []string{"md5", "sha1", "sha256"}[(g/9)%3]},
-			"grp": []int{2, 14}[g%2], "via": []string{"str", "transform"}[i%2], "nonce": fillPattern("seeded", 32, g), "secret": fillPattern("seeded", 256, g+1),
+			"grp": []int{2, 14}[g%2], "via": []string{"str", "transform"}[i%2], "nonce": fillPattern("seeded", []int{32, 64, 96, 200, 512}[(g+i)%5], g), "secret": fillPattern("seeded", 256, g+1),
 			"spii": be(uint64(g), 8), "spir": be(uint64(g+1), 8), "probe": Oct{1, 2, 3}})
 		return digest(o)
+	case "derive_arena":
+		// the nonces of all goroutines are neighbouring regions of ONE buffer the callers share read-only (each slice has
+		// the neighbours' regions as its spare capacity): a derivation reads its own region and writes nothing
+		suite := J{"encr": 256, "integ": "sha1", "prf": []string{"md5", "sha1", "sha256"}[g%3]}
+		k := new(security.IKESAKey)
+		infosFromNames(k, suite, 14)
+		reg := (g % 64) * 64
+		nonce := nonceArena[reg : reg+48+(g%3)*8]
+		if err := k.GenerateKeyForIKESA(nonce, fillPattern("seeded", 256, g+1), uint64(g), uint64(g+1)); err != nil {
+			return "err"
+		}
+		c := new(security.ChildSAKey)
+		c.EncrKInfo = encr.StrToKType(encrNames[128])
+		c.IntegKInfo = integ.StrToKType(integNames["sha1"])
+		if err := c.GenerateKeyForChildSA(k, nonce[:32]); err != nil {
+			return "err"
+		}
+		return digest(J{"sk_d": octOf(k.SK_d), "sk_pr": octOf(k.SK_pr), "ei": octOf(c.InitiatorToResponderEncryptionKey), "ar": octOf(c.ResponderToInitiatorIntegrityKey)})
 	case "derive_child":
 		suite := suiteByIndex(g%9 + 1)
 		s, err := newSA(suite, patternKeys(suite, g), false)
@@ -324,7 +344,7 @@ func runOp(kind string, g int, seed int64, i int) (out string) {
 		var outs []any
 		for k := 0; k < 12; k++ {
 			o := actIkeDerive(e, J{"name": "S", "suite": J{"encr": []int{128, 192, 256}[(g+k)%3], "integ": []string{"md5", "sha1", "sha256"}[(g/3+k)%3], "prf": []string{"md5", "sha1", "sha256"}[(g+2*k)%3]},
-				"grp": 14, "via": []string{"str", "transform"}[k%2], "nonce": fillPattern("seeded", 16+k, g), "secret": fillPattern("seeded", 128, g+k),
+				"grp": 14, "via": []string{"str", "transform"}[k%2], "nonce": fillPattern("seeded", []int{16 + k, 80 + k, 130, 300}[k%4], g), "secret": fillPattern("seeded", 128, g+k),
 				"spii": be(uint64(g), 8), "spir": be(uint64(k), 8)})
 			c := actDeriveChild(e, J{"sa": "S", "nonce": fillPattern("seeded", 8+k, g), "encr": 128, "integ": []string{"none", "md5", "sha1", "sha256"}[k%4]})
 			outs = append(outs, o["sk_d"], o["sk_pr"], c["er"], c["ar"])
@@ -387,6 +407,8 @@ func raceMain(argv []string) int {
 			J{"k": "N", "proto": 0, "ntype": 16388, "spi": Oct{}, "data": fillPattern("seeded", 20, 3)}}})
 		sharedWire, _ = m.Encode()
 		sharedSnap = append([]byte{}, sharedWire...)
+		nonceArena = []byte(fillPattern("seeded", 64*64+64, 77))
+		nonceSnap = append([]byte{}, nonceArena...)
 	}
 	res := &DriveResult{Name: "race", Extra: J{}, StepsBy: J{}}
 	sc := bufio.NewScanner(f)
@@ -460,6 +482,10 @@ func raceMain(argv []string) int {
 	if string(sharedWire) != string(sharedSnap) {
 		res.Failures = append(res.Failures, J{"prop": "C18", "sig": "interference:shared-input-written",
 			"what": "the read-only input slice shared by concurrent decoders was written during the run", "replay": J{"fam": "race-set"}})
+	}
+	if string(nonceArena) != string(nonceSnap) {
+		res.Failures = append(res.Failures, J{"prop": "C18", "sig": "interference:shared-nonce-buffer-written",
+			"what": "the buffer holding the (read-only) nonces of concurrent derivations was written during the run", "replay": J{"fam": "race-set"}})
 	}
 	if why := faultIsolation(*seed); why != "" {
 		res.Failures = append(res.Failures, J{"prop": "C18", "sig": "interference:fault-not-isolated", "what": why, "replay": J{"fam": "race-set"}})
